@@ -248,7 +248,7 @@ pub fn main(mode: Mode) -> i32 {
             ctx.assumptions = vec!["nesting depth of generated brackets <= 64, size <= 64 KiB (the bound the property states)".into()];
             ctx.run_regressions(&p);
             ctx.run_enum(&p, corpus_cases());
-            let n = ctx.n(30_000, 1_500_000);
+            let n = ctx.n(150_000, 3_000_000);
             ctx.run_search(&p, n, 160, 400);
             ctx.require_class("lossless/with-parse-errors");
             ctx.require_class("lossless/non-LF-endings");
